@@ -264,6 +264,12 @@ def reorderGlyphs(font: ttLib.TTFont, new_glyph_order: List[str]):
     if not_loaded:
         raise ValueError(f"Everything should be loaded, following aren't: {not_loaded}")
 
+    # Embedded bitmap glyphs decode lazily whatever the font's lazy mode: component
+    # bitmaps must look up their component glyph IDs under the old glyph order.
+    for tag in ("EBDT", "CBDT"):
+        if tag in font:
+            font[tag].ensureDecompiled(recurse=True)
+
     # HVAR/VVAR without an explicit advance mapping are indexed by glyph ID
     # (outer index 0, inner index == glyph ID): make the mapping explicit, keyed by
     # glyph name, so that each glyph keeps its own deltas after the renumbering.
